@@ -5,6 +5,7 @@ import (
 	"go/constant"
 	"go/token"
 	"go/types"
+	"sort"
 	"strings"
 
 	"verifchk/internal/an"
@@ -122,6 +123,61 @@ func r16b(c *an.Ctx) {
 	fn := c.MustFn("executor/executorcmd", "RpcClient.doTransition")
 	if fn == nil {
 		return
+	}
+	// every state handed back is what the device said (the reply's GetState()) or empty - never the state the request
+	// assumed (ei.Src / ei.Dst)
+	{
+		var assumed []string
+		seenV := map[ssa.Value]bool{}
+		var walk func(v ssa.Value, depth int)
+		walk = func(v ssa.Value, depth int) {
+			if v == nil || seenV[v] || depth > 8 {
+				return
+			}
+			seenV[v] = true
+			switch x := v.(type) {
+			case *ssa.Const:
+				if s, ok := an.ConstString(x); !ok || s != "" {
+					assumed = append(assumed, "constant "+x.String())
+				}
+			case *ssa.Phi:
+				for _, e := range x.Edges {
+					walk(e, depth+1)
+				}
+			case *ssa.Call:
+				if an.MethodName(&x.Call) != "GetState" {
+					assumed = append(assumed, "result of "+an.CalleeName(&x.Call))
+				}
+			case *ssa.UnOp:
+				if al, ok := x.X.(*ssa.Alloc); ok && x.Op == token.MUL && al.Referrers() != nil && an.SpilledParam(al) == nil {
+					for _, r := range *al.Referrers() {
+						if st, isSt := r.(*ssa.Store); isSt && st.Addr == ssa.Value(al) {
+							walk(st.Val, depth+1)
+						}
+					}
+					return
+				}
+				if p, ok := an.TypePath(x); ok {
+					assumed = append(assumed, p)
+				} else {
+					assumed = append(assumed, x.String())
+				}
+			default:
+				if p, ok := an.TypePath(v); ok {
+					assumed = append(assumed, p)
+				} else {
+					assumed = append(assumed, v.String())
+				}
+			}
+		}
+		for _, r := range an.Returns(fn) {
+			if len(r.Results) == 2 {
+				walk(an.RetVal(r, 0), 0)
+			}
+		}
+		sort.Strings(assumed)
+		c.Ob("executor/executorcmd.(*RpcClient).doTransition|state-is-the-devices", fn.Pos(), len(assumed) == 0,
+			"a state returned by doTransition does not come from the device's reply (%v): when the request is rejected or fails the executor reports the state it assumed, not the one the device is in", assumed)
 	}
 	c.Subject()
 	key := "executor/executorcmd.(*RpcClient).doTransition"
@@ -458,6 +514,41 @@ func r16cd(c *an.Ctx) {
 			msg += fmt.Sprintf("; instead the forward step at %s is attempted on the rolled-back device and its result replaces the rollback's", c.PosStr(next.Pos()))
 		}
 		c.Ob(key, s.call.Pos(), next == nil, "%s", msg)
+		// whether the device is rolled back depends only on where the refused forward step left it (its state / error),
+		// not on which request brought us here: conditions between the forward step and the rollback must not test the
+		// function's own parameters
+		var prev *ssa.Call
+		for _, o := range all {
+			if o.fn == fn && o.call != s.call && an.Dominates(o.call, s.call) && (prev == nil || an.Dominates(prev, o.call)) {
+				prev = o.call
+			}
+		}
+		if prev == nil {
+			continue
+		}
+		var extra []string
+		for _, g := range an.ControlConds(s.call.Block()) {
+			if g.LoopHeader || g.LoopExit || !an.Dominates(prev, g.If) {
+				continue
+			}
+			for _, a := range an.CondAtoms(g.V, g.Val) {
+				for _, v := range []ssa.Value{a.X, a.Y} {
+					if p, isP := v.(*ssa.Parameter); isP && p != fn.Params[0] {
+						pos := c.PosStr(atomPos(a)) + " (" + p.Name() + ")"
+						dup := false
+						for _, e := range extra {
+							dup = dup || e == pos
+						}
+						if !dup {
+							extra = append(extra, pos)
+						}
+					}
+				}
+			}
+		}
+		sort.Strings(extra)
+		c.Ob(key+"|decided-by-device-state", s.call.Pos(), len(extra) == 0,
+			"whether this rollback is attempted also depends on the request (%v), not only on the state the refused step left the device in: on the other requests the device stays in the intermediate state and an empty state is reported", extra)
 	}
 }
 
@@ -652,6 +743,19 @@ func r16f(c *an.Ctx, all []devStep, helpers map[*ssa.Function]bool) {
 			}
 		}
 		c.Ob(key, st.call.Pos(), ok, "the error returned by this device step never reaches the function's error result (dropped, or bound to a variable that shadows the result): a failed step is reported to the caller without an error")
+		// ... and is not cleared on the way: with this step's error set, no return can be reached with a nil error
+		if ok && errVal != nil {
+			fl := an.FlowFromFacts(st.call.Block(), nil, errVal)
+			var cleared []string
+			for _, ret := range fl.ReachedReturns() {
+				if v := an.RetVal(ret, errIdx); v != nil && !an.IsNilConst(v) && fl.NilCanReach(v, ret, st.call) {
+					cleared = append(cleared, c.PosStr(lastPos(ret.Block())))
+				}
+			}
+			sort.Strings(cleared)
+			c.Ob(fmt.Sprintf("%s|%s#%d|error-not-cleared", c.RelName(fn), kind, i+1), st.call.Pos(), len(cleared) == 0,
+				"after this device step failed the function can still return a nil error (returns at %v: the error variable is reset on some path): the transition is reported as successful although the device did not reach the destination", cleared)
+		}
 	}
 }
 
